@@ -306,6 +306,9 @@ pub struct Txn {
     pub nb_timer_late_ms: u32,
     /// nb: number of spurious TimeoutFired / noise radio events injected while waiting
     pub nb_spurious: u8,
+    /// nb: the application calls set_datarate(dr) after TxDone, before RX1 opens ("bound at TX time")
+    #[serde(default)]
+    pub nb_set_dr_mid: Option<u8>,
 }
 
 #[derive(Clone, Debug, PartialEq, Eq, Serialize, Deserialize)]
@@ -493,6 +496,11 @@ fn simplify_txn(t: &Txn) -> Vec<Txn> {
         c.nb_timer_late_ms = 0;
         c.nb_spurious = 0;
         c.tx_ms = 0;
+        out.push(c);
+    }
+    if t.nb_set_dr_mid.is_some() {
+        let mut c = t.clone();
+        c.nb_set_dr_mid = None;
         out.push(c);
     }
     for (sel, frames) in [(0, &t.gap1), (1, &t.rx1), (2, &t.gap2), (3, &t.rx2)] {
